@@ -72,6 +72,13 @@ def i_binop(ex, fr, ins):
     if k == "nil":
         k = p.kind(ins["yt"])
         xt = ins["yt"]
+    if k == "int" and (isinstance(a, tuple) or isinstance(b, tuple)):
+        from .iohash import cell_equal
+        if op == "==":
+            return cell_equal(a, b)
+        if op == "!=":
+            return b_not(cell_equal(a, b))
+        raise Unsupported("arithmetic on structural byte")
     if k == "int":
         w, signed = p.int_info(xt)
         if op in ("<<", ">>"):
@@ -288,7 +295,7 @@ def i_fieldaddr(ex, fr, ins):
     return map_ptr(ex, x, f)
 
 
-def index_ptr(ex, base, idx, stride, count, elem, pos, what):
+def index_ptr(ex, base, idx, stride, count, elem, pos, what, g=True):
     """pointer to element idx of the array starting at base (count elements)"""
     if is_term(idx):
         idx_s = simp_bool  # placeholder to keep linters quiet
@@ -304,17 +311,18 @@ def index_ptr(ex, base, idx, stride, count, elem, pos, what):
         else:
             inb = z3.And(idx >= 0, idx < count)
         inb = simp_bool(inb) if not isinstance(inb, bool) else inb
-        ex.panic_if(b_not(inb), "index out of range (%s)" % what, pos)
+        ex.panic_if(b_and(g, b_not(inb)), "index out of range (%s)" % what, pos)
         if is_term(count):
             raise Unsupported("symbolic index with symbolic length")
         return Ptr(base.obj, base.off, base.sym + ((idx, stride, count),), elem)
     if is_term(count):
         if z3.is_bv(count):
-            ex.panic_if(simp_bool(b_not(z3.ULT(z3.BitVecVal(idx, count.size()), count))), "index out of range (%s)" % what, pos)
+            ex.panic_if(b_and(g, simp_bool(b_not(z3.ULT(z3.BitVecVal(idx, count.size()), count)))), "index out of range (%s)" % what, pos)
         else:
-            ex.panic_if(simp_bool(b_not(idx < count)), "index out of range (%s)" % what, pos)
+            ex.panic_if(b_and(g, simp_bool(b_not(idx < count))), "index out of range (%s)" % what, pos)
     elif idx < 0 or idx >= count:
-        ex.panic_if(True, "index %d out of range [0,%d) (%s)" % (idx, count, what), pos)
+        ex.panic_if(g, "index %d out of range [0,%d) (%s)" % (idx, count, what), pos)
+        return None
     return Ptr(base.obj, base.off + idx * stride, base.sym, elem)
 
 
@@ -334,7 +342,12 @@ def i_indexaddr(ex, fr, ins):
                     ex.panic_if(True, "index of nil/empty slice", pos)
                 ex.panic_if(g, "index of nil/empty slice", pos)
                 continue
-            outs.append((g, index_ptr(ex, s.ptr, idx, stride, s.len, elem, pos, "slice")))
+            q = index_ptr(ex, s.ptr, idx, stride, s.len, elem, pos, "slice", g)
+            if q is not None:
+                outs.append((g, q))
+        if not outs:
+            from .values import PathDead
+            raise PathDead()
         if len(outs) == 1:
             return outs[0][1]
         return Guarded(outs)
@@ -345,7 +358,11 @@ def i_indexaddr(ex, fr, ins):
     n = ad["len"]
     if x is None:
         ex.panic_if(True, "nil array pointer", pos)
-    return map_ptr(ex, x, lambda q: index_ptr(ex, q, idx, stride, n, elem, pos, "array"))
+    r = map_ptr(ex, x, lambda q: index_ptr(ex, q, idx, stride, n, elem, pos, "array"))
+    if r is None:
+        from .values import PathDead
+        raise PathDead()
+    return r
 
 
 def i_index(ex, fr, ins):
